@@ -385,6 +385,22 @@ func newShadow(c *codecCase, r *rand.Rand) (*shadow, uint64) {
 				s.hdrs = append(s.hdrs, kv{[]byte(keyName(p.K, p.Kl)), randBytes(r, p.Vl)})
 			}
 			s.body = randBytes(r, c.Shape.Body)
+			if e2eMode {
+				// routable and answerable: service header, rpc request/response command code, a timeout that cannot expire
+				s.hdrs = append(s.hdrs, kv{[]byte("service"), []byte("svc-e2e")})
+				cc, to := 2, 10
+				if lay.Pins[0].Val == 2 {
+					cc, to = 3, 12
+				}
+				code := uint64(1)
+				if c.Dir == "resp" {
+					code = 2
+					putUint(s.fixed[to:], 2, 0) // response status: success
+				} else {
+					putUint(s.fixed[to:], 4, 30000)
+				}
+				putUint(s.fixed[cc:], 2, code)
+			}
 		} else if c.Dir == "resp" {
 			s.body = randBytes(r, c.Shape.Body)
 		} else {
